@@ -886,3 +886,38 @@ package rapid
 //@   ensures [C05] implies(result, len(s.rec.data) <= len(buf))
 //@   panics testError [C01]: refOf(panicval) == now(err2)
 //@   modifies heap, drawn, lockmode, cancelled
+
+// ---------------------------------------------------------------------------------------------
+// Reachability (C18, C12): witnessed scenarios. For every max and every v <= max outside the known hole there
+// is a geometric draw n (= max(1, Len64(v)); = Len64(max) when the lengths agree) and a word (= v) for which
+// genUintNBiased returns v. The hole (see known_findings.json): spans whose bit length is 56 or 60..64 cannot
+// produce values of full bit length other than max itself - proved unreachable by the @hole scenario.
+
+//@ define holeBand(b) = b == 56 || b == 60 || b == 61 || b == 62 || b == 63 || b == 64
+//@ define inHole(v, max) = len64(v) == len64(max) && v != max && holeBand(len64(max))
+//@ define witnessN(v) = ite(len64(v) < 1, 1, len64(v))
+
+//@ func genUintNBiased@reach
+//@   given v (_ BitVec 64)
+//@   requires [C12,C18] v <= max && !inHole(v, max)
+//@   ensures [C12,C18] result0 == v
+//@   panics invalidData: true
+//@   modifies drawn
+//@   at genGeom#0 assume uint64(witnessN(v)) == result + 1
+//@   at s.drawBits#0 assume result == v
+
+//@ func genUintNBiased@hole
+//@   given v (_ BitVec 64)
+//@   requires [C18] v <= max && inHole(v, max)
+//@   ensures [C18] result0 != v
+//@   panics invalidData: true
+//@   modifies drawn
+
+//@ func genUintNBiased@reachall
+//@   given v (_ BitVec 64)
+//@   requires [C18] v <= max
+//@   ensures [C18] result0 == v
+//@   panics invalidData: true
+//@   modifies drawn
+//@   at genGeom#0 assume uint64(witnessN(v)) == result + 1
+//@   at s.drawBits#0 assume result == v
